@@ -292,30 +292,34 @@ func (d *gdriver) randomLegalOp() (string, error) {
 }
 
 // buildWide makes hub <- n groups <- one node placed below every one of the groups (more than a thousand ways up
-// from the node). Every further placement costs the store a walk over all earlier ones, so this takes minutes for
-// n > 1000: thorough tier only.
+// from the node). It is built from the bottom up - the node is placed below groups that hang nowhere yet, the groups
+// are attached to the hub afterwards - because every placement made the other way round costs the store a walk over
+// all the ways up that exist already.
 func buildWide(d *gdriver, root string, n int, nodeType string) (hub string, groups []string, p string, err error) {
 	if hub, err = d.create(root, "group", false); err != nil {
 		return
 	}
+	p = d.newID()
+	edge := func(id, parent, typ string) error {
+		e, err := d.sendEdge(id, parent, data.Points{{Type: data.PointTypeTombstone, Time: d.now()}, {Type: data.PointTypeNodeType, Text: typ}})
+		if err == nil && e != "" {
+			err = fmt.Errorf("edge %s below %s refused: %s", id, parent, e)
+		}
+		return err
+	}
 	for k := 0; k < n; k++ {
-		var g string
-		if g, err = d.create(hub, "group", false); err != nil {
-			return
-		}
+		g := d.newID()
 		groups = append(groups, g)
-	}
-	if p, err = d.create(groups[0], nodeType, false); err != nil {
-		return
-	}
-	for k := 1; k < n; k++ {
-		var e string
-		if e, err = d.sendEdge(p, groups[k], data.Points{{Type: data.PointTypeTombstone, Time: d.now()}, {Type: data.PointTypeNodeType, Text: nodeType}}); err != nil || e != "" {
-			if err == nil {
-				err = fmt.Errorf("placement %d refused: %s", k+1, e)
-			}
+		if err = edge(p, g, nodeType); err != nil {
 			return
 		}
+	}
+	d.Made = append(d.Made, p)
+	for _, g := range groups {
+		if err = edge(g, hub, "group"); err != nil {
+			return
+		}
+		d.Made = append(d.Made, g)
 	}
 	return
 }
